@@ -21,7 +21,7 @@ WORKERS = {"sx": "vf.sx_worker", "bvx": "vf.bvx_worker", "native": "vf.native_wo
 
 def _env():
     e = dict(os.environ)
-    e["PYTHONPATH"] = ROOT + os.pathsep + "/repo"
+    e["PYTHONPATH"] = ROOT + os.pathsep + os.environ.get("VERIF_REPO", "/repo")
     e["PYTHONDONTWRITEBYTECODE"] = "1"
     e["PYTHONHASHSEED"] = "0"
     e.setdefault("SSEPY_VERIF", "1")
@@ -296,5 +296,8 @@ def write_evidence(prop, tier, seed, results, meta, wall, nviol, twins, known_id
     ev = {"property_id": prop, "tier": tier, "seed": int(seed), "level": meta.get("level", "other"),
           "coverage": cov, "assumptions": meta.get("assumptions", []), "wall_s": round(wall, 1),
           "violations": nviol}
-    os.makedirs(os.path.join(ROOT, "evidence"), exist_ok=True)
-    json.dump(ev, open(os.path.join(ROOT, "evidence", prop + ".json"), "w"), indent=1)
+    # evidence describes /repo; a trial against a scratch worktree (VERIF_REPO, tools/try_mut_wt.sh) writes elsewhere
+    evdir = os.environ.get("VERIF_EVIDENCE_DIR") if os.environ.get("VERIF_REPO") else None
+    evdir = evdir or os.path.join(ROOT, "evidence")
+    os.makedirs(evdir, exist_ok=True)
+    json.dump(ev, open(os.path.join(evdir, prop + ".json"), "w"), indent=1)
